@@ -612,17 +612,19 @@ package machine
 // transition is queued (C04), so clocks and active states are not assigned.
 //@ func (m *Machine) handle(name string, args A, isFinal, isEnter, isSelf bool) (r Result, called bool)
 //@   trusted handler dispatch (reflection, handler goroutine, timeouts): only result range and frame are specified
-//@   assigns Transition.latestHandlerIsEnter, Transition.latestHandlerIsFinal, Machine.panicCaught, Machine.queue, Machine.queueLen, Machine.queueTicksPending, Machine.logEntries, ghost.faults
+//@   assigns Transition.latestHandlerIsEnter, Transition.latestHandlerIsFinal, Machine.panicCaught, Machine.queue, Machine.queueLen, Machine.queueTicksPending, Machine.logEntries, ghost.faults, ghost.vetoes
 //@   ensures res: r == Executed || r == Canceled
 //@   ensures faults: (isFinal && r == Canceled) ? ghost.faults == old(ghost.faults) + 1 : ghost.faults == old(ghost.faults)
+//@   ensures vetoes: (!isFinal && r == Canceled) ? ghost.vetoes == old(ghost.vetoes) + 1 : ghost.vetoes == old(ghost.vetoes)
 //@   ensures queue: old(QueueInv(m)) ==> QueueInv(m)
 
 //@ func (t *Transition) emitHandler(from, to string, isFinal, isEnter bool, event string, args A) (r Result)
 //@   props C05
 //@   requires nn: t.Machine != nil
-//@   assigns Transition.latestHandlerToState, Transition.latestHandlerIsEnter, Transition.latestHandlerIsFinal, Machine.panicCaught, Machine.queue, Machine.queueLen, Machine.queueTicksPending, Machine.logEntries, ghost.faults
+//@   assigns Transition.latestHandlerToState, Transition.latestHandlerIsEnter, Transition.latestHandlerIsFinal, Machine.panicCaught, Machine.queue, Machine.queueLen, Machine.queueTicksPending, Machine.logEntries, ghost.faults, ghost.vetoes
 //@   ensures res: r == Executed || r == Canceled
 //@   ensures faults: (isFinal && r == Canceled) ? ghost.faults == old(ghost.faults) + 1 : ghost.faults == old(ghost.faults)
+//@   ensures vetoes: (!isFinal && r == Canceled) ? ghost.vetoes == old(ghost.vetoes) + 1 : ghost.vetoes == old(ghost.vetoes)
 //@   ensures queue: old(QueueInv(t.Machine)) ==> QueueInv(t.Machine)
 
 // Negotiation emitters: each runs the handlers of one phase; a Canceled result
@@ -640,7 +642,9 @@ package machine
 //@   requires exits:  nodup(t.Exits) && (forall j int :: 0 <= j && j < len(t.Exits) ==> !mem(*t.cacheTargetStates, t.Exits[j]))
 //@   requires phase:  ghost.phase <= 1
 //@   ghostset phase := 1
-//@   assigns Transition.latestHandlerToState, Transition.latestHandlerIsEnter, Transition.latestHandlerIsFinal, t.TargetIndexes, t.cacheTargetStates, Machine.panicCaught, Machine.queue, Machine.queueLen, Machine.queueTicksPending, Machine.logEntries, ghost.faults
+//@   assigns Transition.latestHandlerToState, Transition.latestHandlerIsEnter, Transition.latestHandlerIsFinal, t.TargetIndexes, t.cacheTargetStates, Machine.panicCaught, Machine.queue, Machine.queueLen, Machine.queueTicksPending, Machine.logEntries, ghost.faults, ghost.vetoes
+//@   ensures absorbed: r == Executed ==> ghost.vetoes - old(ghost.vetoes) == len(old(*t.cacheTargetStates)) - len(*t.cacheTargetStates)
+//@   ensures stopped:  r == Canceled ==> ghost.vetoes - old(ghost.vetoes) > len(old(*t.cacheTargetStates)) - len(*t.cacheTargetStates)
 //@   ensures res:     r == Executed || r == Canceled
 //@   ensures target:  TargetOK(t) && TargetParallel(t)
 //@   ensures shrink:  forall x string :: mem(*t.cacheTargetStates, x) ==> mem(old(*t.cacheTargetStates), x)
@@ -648,6 +652,7 @@ package machine
 //@   ensures dropped: forall x string :: mem(old(*t.cacheTargetStates), x) && !mem(*t.cacheTargetStates, x) ==> t.cacheSchema[x].Auto
 //@   ensures queue:   old(QueueInv(t.Machine)) ==> QueueInv(t.Machine)
 //@   ensures faults:  ghost.faults == old(ghost.faults)
+//@   loop 1 invariant absorbed: ghost.vetoes - old(ghost.vetoes) == len(old(*t.cacheTargetStates)) - len(*t.cacheTargetStates)
 //@   loop 1 invariant inv: TargetOK(t) && TargetParallel(t) && ghost.faults == old(ghost.faults) && (old(QueueInv(t.Machine)) ==> QueueInv(t.Machine))
 //@   loop 1 invariant shrink: forall x string :: mem(*t.cacheTargetStates, x) ==> mem(old(*t.cacheTargetStates), x)
 //@   loop 1 invariant manual: !t.Mutation.IsAuto ==> t.cacheTargetStates == old(t.cacheTargetStates) && t.TargetIndexes == old(t.TargetIndexes)
@@ -659,7 +664,9 @@ package machine
 //@   requires enters: nodup(t.Enters) && subset(t.Enters, *t.cacheTargetStates)
 //@   requires phase:  ghost.phase <= 2
 //@   ghostset phase := 2
-//@   assigns Transition.latestHandlerToState, Transition.latestHandlerIsEnter, Transition.latestHandlerIsFinal, t.TargetIndexes, t.cacheTargetStates, Machine.panicCaught, Machine.queue, Machine.queueLen, Machine.queueTicksPending, Machine.logEntries, ghost.faults
+//@   assigns Transition.latestHandlerToState, Transition.latestHandlerIsEnter, Transition.latestHandlerIsFinal, t.TargetIndexes, t.cacheTargetStates, Machine.panicCaught, Machine.queue, Machine.queueLen, Machine.queueTicksPending, Machine.logEntries, ghost.faults, ghost.vetoes
+//@   ensures absorbed: r == Executed ==> ghost.vetoes - old(ghost.vetoes) == len(old(*t.cacheTargetStates)) - len(*t.cacheTargetStates)
+//@   ensures stopped:  r == Canceled ==> ghost.vetoes - old(ghost.vetoes) > len(old(*t.cacheTargetStates)) - len(*t.cacheTargetStates)
 //@   ensures res:     r == Executed || r == Canceled
 //@   ensures target:  TargetOK(t) && TargetParallel(t)
 //@   ensures shrink:  forall x string :: mem(*t.cacheTargetStates, x) ==> mem(old(*t.cacheTargetStates), x)
@@ -667,11 +674,37 @@ package machine
 //@   ensures dropped: forall x string :: mem(old(*t.cacheTargetStates), x) && !mem(*t.cacheTargetStates, x) ==> t.cacheSchema[x].Auto
 //@   ensures queue:   old(QueueInv(t.Machine)) ==> QueueInv(t.Machine)
 //@   ensures faults:  ghost.faults == old(ghost.faults)
+//@   loop 1 invariant absorbed: ghost.vetoes - old(ghost.vetoes) == len(old(*t.cacheTargetStates)) - len(*t.cacheTargetStates)
 //@   loop 1 invariant inv: TargetOK(t) && TargetParallel(t) && ghost.faults == old(ghost.faults) && (old(QueueInv(t.Machine)) ==> QueueInv(t.Machine))
 //@   loop 1 invariant shrink: forall x string :: mem(*t.cacheTargetStates, x) ==> mem(old(*t.cacheTargetStates), x)
 //@   loop 1 invariant manual: !t.Mutation.IsAuto ==> t.cacheTargetStates == old(t.cacheTargetStates) && t.TargetIndexes == old(t.TargetIndexes)
 //@   loop 1 invariant dropped: forall x string :: mem(old(*t.cacheTargetStates), x) && !mem(*t.cacheTargetStates, x) ==> t.cacheSchema[x].Auto
 //@   loop 1 invariant rest: forall j int :: idx1 <= j && j < len(t.Enters) ==> mem(*t.cacheTargetStates, t.Enters[j])
+
+//@ func (t *Transition) emitSelfEvents() (r Result)
+//@   props C03 C05 C07
+//@   abstracts slices.Delete edits the cached target in place while the loop ranges over the same backing array; the value model does not see the shifted elements
+//@   requires nn:     t.Machine != nil && t.Mutation != nil && TargetOK(t) && TargetParallel(t) && !isnil(t.cacheSchema)
+//@   requires locks:  unlocked(t.Machine.activeStatesMx)
+//@   requires phase:  ghost.phase <= 3
+//@   ghostset phase := 3
+//@   assigns Transition.latestHandlerToState, Transition.latestHandlerIsEnter, Transition.latestHandlerIsFinal, t.TargetIndexes, t.cacheTargetStates, Machine.panicCaught, Machine.queue, Machine.queueLen, Machine.queueTicksPending, Machine.logEntries, ghost.faults, ghost.vetoes
+//@   ensures absorbed: r == Executed ==> ghost.vetoes - old(ghost.vetoes) == len(old(*t.cacheTargetStates)) - len(*t.cacheTargetStates)
+//@   ensures stopped:  r == Canceled ==> ghost.vetoes - old(ghost.vetoes) > len(old(*t.cacheTargetStates)) - len(*t.cacheTargetStates)
+//@   ensures res:     r == Executed || r == Canceled
+//@   ensures target:  TargetOK(t) && TargetParallel(t)
+//@   ensures shrink:  forall x string :: mem(*t.cacheTargetStates, x) ==> mem(old(*t.cacheTargetStates), x)
+//@   ensures manual:  !t.Mutation.IsAuto ==> t.cacheTargetStates == old(t.cacheTargetStates) && t.TargetIndexes == old(t.TargetIndexes)
+//@   ensures dropped: forall x string :: mem(old(*t.cacheTargetStates), x) && !mem(*t.cacheTargetStates, x) ==> t.cacheSchema[x].Auto
+//@   ensures queue:   old(QueueInv(t.Machine)) ==> QueueInv(t.Machine)
+//@   ensures faults:  ghost.faults == old(ghost.faults)
+//@   loop 1 invariant absorbed: ghost.vetoes - old(ghost.vetoes) == len(old(*t.cacheTargetStates)) - len(*t.cacheTargetStates)
+//@   loop 1 invariant inv: TargetOK(t) && TargetParallel(t) && ghost.faults == old(ghost.faults) && (old(QueueInv(t.Machine)) ==> QueueInv(t.Machine))
+//@   loop 1 invariant shrink: forall x string :: mem(*t.cacheTargetStates, x) ==> mem(old(*t.cacheTargetStates), x)
+//@   loop 1 invariant manual: !t.Mutation.IsAuto ==> t.cacheTargetStates == old(t.cacheTargetStates) && t.TargetIndexes == old(t.TargetIndexes)
+//@   loop 1 invariant dropped: forall x string :: mem(old(*t.cacheTargetStates), x) && !mem(*t.cacheTargetStates, x) ==> t.cacheSchema[x].Auto
+//@   loop 1 let snap := *t.cacheTargetStates
+//@   loop 1 invariant rest: unlocked(t.Machine.activeStatesMx) && (forall j int :: idx1 <= j && j < len(snap) ==> mem(*t.cacheTargetStates, snap[j]))
 
 //@ func (t *Transition) emitStateStateEvents() (r Result)
 //@   trusted negotiation phase: result range, frame and phase only
@@ -691,7 +724,7 @@ package machine
 //@   requires applied: ghost.phase == 6
 //@   requires timeafter: t.Machine.disposed || TimeAfterOK(t)
 //@   ghostset phase := 7
-//@   assigns Transition.latestHandlerToState, Transition.latestHandlerIsEnter, Transition.latestHandlerIsFinal, Machine.panicCaught, Machine.queue, Machine.queueLen, Machine.queueTicksPending, Machine.logEntries, ghost.faults
+//@   assigns Transition.latestHandlerToState, Transition.latestHandlerIsEnter, Transition.latestHandlerIsFinal, Machine.panicCaught, Machine.queue, Machine.queueLen, Machine.queueTicksPending, Machine.logEntries, ghost.faults, ghost.vetoes
 //@   ensures res: r == Executed || r == Canceled
 //@   ensures faults: (r == Canceled) ? ghost.faults > old(ghost.faults) : ghost.faults == old(ghost.faults)
 //@   ensures queue: old(QueueInv(t.Machine)) ==> QueueInv(t.Machine)
